@@ -210,7 +210,7 @@ func runQ(c qCase, fails *[]cq.ImplFailure) qCase {
 			send(w)
 		}
 	}
-	col.wait(total, 400*time.Millisecond, 8*time.Second)
+	col.wait(total, 1500*time.Millisecond, 12*time.Second)
 	done := make(chan struct{})
 	go func() { _ = closer(); close(done) }()
 	select {
@@ -415,7 +415,7 @@ func main() {
 	var fails []cq.ImplFailure
 	pac := &cq.Set{Name: "c17pacing", Import: "IV.Check.C17Check", CaseType: "q_case", Checks: []string{"pacing_mismatches", "pacing_spec_failures"}}
 	lea := &cq.Set{Name: "c17leaky", Import: "IV.Check.C17Check", CaseType: "q_case", Checks: []string{"leaky_mismatches", "leaky_spec_failures"}}
-	env := &cq.Set{Name: "c17env", Import: "IV.Check.C17Check", CaseType: "env_case", Checks: []string{"env_mismatches", "env_spec_failures"}}
+	env := &cq.Set{Name: "c17env", Import: "IV.Check.C17Check", CaseType: "env_case", Checks: []string{"env_spec_failures"}}
 	sets := []*cq.Set{pac, lea, env}
 	if o.Replay != "" {
 		var probe map[string]interface{}
